@@ -128,6 +128,17 @@ pub fn gen(out_path: &str, toks_path: &str, count: u64) {
             }
         }
     }
+    // (2b) re-encoded YAML whose one astral character starts at every offset around the end of libyaml's
+    // 16 KiB read request: the encoder's direct path / staging path switch over exactly there
+    for enc in ["utf16le", "utf16be", "utf32le"] {
+        for pad in 16360usize..=16400 {
+            let text = format!("s: \"{}{}\"\n", "a".repeat(pad), "\u{1f5a5}\u{e9}\u{20ac}");
+            let bytes = crate::val::reencode(&text, enc, pad % 2 == 0);
+            for mode in ["slice", "reader"] {
+                emit(&format!("astral-at-{pad}/{enc}"), &bytes, if pad % 3 == 0 { "detect" } else { "yaml" }, "json", mode);
+            }
+        }
+    }
     // (2) adversarial shapes: every source selection that makes sense, all targets, both modes
     for (label, fmt, bytes) in adversarial(&mut rng) {
         for to in targets {
